@@ -159,13 +159,116 @@ def note_refusals(rep, obs):
     return refused
 
 
+def exact_matrix_part(rep, tier, tags):
+    """Design run of the pipeline state machine Segno.tla (spec encoder -> spec decoder on a small scope) and exact-matrix
+    conformance: every exported argument vector is executed and Trace_Segno re-runs the machine on the observation."""
+    import json
+    cfg = 'Segno_q5.cfg' if tier == 'quick' else 'Segno_thorough.cfg'
+    out, st = common.run_tlc('MC_Segno', cfg=cfg, workers=common.NCPU, timeout=3000, xmx='12g')
+    rep.add_design('MC_Segno', cfg, out, st, 'pipeline state machine on all contents of length <= 2 over a class-boundary alphabet: invariants C01_RoundTrip, '
+                   'C02_Geometry, C03_Blocks, C06_Mask, C07_ModeInSymbol, C13_Tail, Dev_Recognised (reference decoder applied to the reference encoder)')
+    vecs = common.parse_vectors(out)
+    seen = {}
+    for v in vecs:
+        a = v['args']
+        key = (tuple(v['content']), a['version'], a['error'], a['micro'], a['boost'], v['maskreq'])
+        seen.setdefault(key, v)
+    segno = common.use_repo()
+    obs = []
+    for key, v in sorted(seen.items()):
+        content, version, error, micro, boost, maskreq = key
+        kw = {'boost_error': boost}
+        if version != 99:
+            kw['version'] = T.version_name(version)
+        if error != '-':
+            kw['error'] = error
+        if micro != 'none':
+            kw['micro'] = micro == 'yes'
+        if maskreq >= 0:
+            kw['mask'] = maskreq
+        c = call('make', bytes(content), **kw)
+        outcome, res, _ = symobs.execute(c)
+        obs.append({'_call': c, 'content': list(content), 'version': version, 'error': error, 'micro': micro, 'boost': boost, 'maskreq': maskreq,
+                    'status': outcome['status'] if outcome['status'] == 'ok' else ('ValueError' if 'ValueError' in outcome.get('mro', []) else outcome.get('exc', 'error')),
+                    'matrix': res['matrix'] if res else [], '_cost': 1})
+    rep.evaluations += len(obs)
+    # one observation may have several behaviours (with / without a deviation action): collect all verdict lines
+    wd = common.workdir(rep.pid)
+    verdicts, st = validate_all_branches(rep, obs)
+    rep.add_trace_stats(st, len(obs))
+    n_equal = n_dev = 0
+    for o in obs:
+        branches = verdicts.get(o['tid'], [])
+        good = [b for b in branches if not b['fails']]
+        if good:
+            n_equal += 1
+            if all(b['facts']['dev'] for b in good):
+                n_dev += 1
+                kf = engine.match_known('C13', ['pads'], ['Dev_PadBitsWhenAligned'], rep.known)
+                if kf and rep.pid == 'C13':
+                    rep.known_hit(kf, {'call': engine.brief_call(o['_call'])})
+            rep.keys.add(('X', tuple(o['content']), o['version'], o['error'], o['micro'], o['maskreq']))
+            continue
+        # no behaviour of the specification produces the observed matrix: attribute to the properties whose clauses fail
+        b = branches[0] if branches else {'fails': [['SPEC', 'no_verdict']], 'facts': {}}
+        mine = sorted(c for (p, c) in b['fails'] if p in tags)
+        if mine:
+            rep.violation({'call': o['_call'], 'failing_clauses': mine, 'props': sorted(tags), 'all_fails': b['fails']},
+                          f"{engine.brief_call(o['_call'])}: the matrix differs from every behaviour of Segno.tla; fails {b['fails']}")
+        else:
+            rep.notes.setdefault('exact_matrix_mismatches_attributed_to_other_properties', []).append(
+                {'call': engine.brief_call(o['_call']), 'fails': b['fails']})
+    rep.notes['exact_matrix'] = {'vectors': len(obs), 'matrix_equal_to_a_specification_behaviour': n_equal, 'of_which_only_via_Dev_PadBitsWhenAligned': n_dev}
+
+
+def validate_all_branches(rep, obs):
+    """like common.validate_observations, but keeps every verdict line per observation (Trace_Segno branches on deviations)"""
+    import json
+    import os
+    from concurrent.futures import ThreadPoolExecutor
+    for i, o in enumerate(obs):
+        o['tid'] = i + 1
+    wd = common.workdir(rep.pid)
+    shards = max(1, min(common.NCPU, len(obs)))
+    buckets = [obs[k::shards] for k in range(shards)]
+
+    def run(k):
+        path = os.path.join(wd, f'segno_{k}.json')
+        with open(path, 'w') as f:
+            json.dump([{kk: vv for kk, vv in o.items() if not kk.startswith('_')} for o in buckets[k]], f, separators=(',', ':'))
+        out, st = common.run_tlc('Trace_Segno', env={'TRACE_FILE': path}, workers=1, metadir=os.path.join(wd, f'meta_segno_{k}'), timeout=3000)
+        if not common.tlc_ok(out, st):
+            with open(os.path.join(wd, f'segno_{k}.out'), 'w') as f:
+                f.write(out)
+            raise common.MachineryError(f'TLC failed on Trace_Segno shard {k}; see {wd}/segno_{k}.out\n' + out[-2000:])
+        vs = [common._unescape(m) for m in common._VERDICT_RE.findall(out)]
+        by = {}
+        for v in vs:
+            lst = by.setdefault(v['tid'], [])
+            if v not in lst:
+                lst.append(v)
+        if set(by) != {o['tid'] for o in buckets[k]}:
+            raise common.MachineryError(f'Trace_Segno shard {k}: verdicts for {len(by)} of {len(buckets[k])} observations')
+        return by, st
+    allv = {}
+    stats = {'states': 0, 'transitions': 0, 'wall_s': 0.0, 'runs': len(buckets)}
+    with ThreadPoolExecutor(max_workers=len(buckets)) as ex:
+        for by, st in ex.map(run, range(len(buckets))):
+            allv.update(by)
+            stats['states'] += st['states']
+            stats['transitions'] += st['transitions']
+    return allv, stats
+
+
 def run_c01(rep, tier):
+    exact_matrix_part(rep, tier, {'C01'})
     calls = gen_c01(tier, common.seed())
-    rep.evaluations = len(calls)
+    rep.evaluations += len(calls)
     obs = symobs.observe_many(calls, props=['C01'])
     note_refusals(rep, obs)
     engine.judge_symbols(rep, obs, {'C01'}, key_c01, sample_sym)
-    rep.rule = ('class-stratified contents (digits, alphanumeric, Shift-JIS kanji, latin-1, needs-SJIS, needs-UTF-8, raw bytes incl. every '
+    rep.rule = ('design: Segno.tla small scope (spec encoder -> spec decoder) and exact-matrix conformance of the same vectors; then '
+                'class-stratified contents (digits, alphanumeric, Shift-JIS kanji, latin-1, needs-SJIS, needs-UTF-8, raw bytes incl. every '
                 'single byte and kanji-range boundary pairs, ints, multi-part lists, hanzi) x versions/levels/options; every symbol is '
                 'decoded by the TLA+ reference decoder; distinct = (version, level, segment modes, capped counts, eci); '
                 'non-trivial = the symbol was produced and decoded')
